@@ -659,15 +659,29 @@ def rule5_growth(ctx):
     inc = counter_step(eq, 1)
     up = call_sites(eq, 'dr_event_queue_heapify_up')
     cp = [x for x in eq.calls() if (x.callee or '').startswith('llvm.memcpy')]
-    okq = len(inc) == 1 and len(up) == 1 and len(cp) >= 1 and all(eq.dominates_f(x, inc[0]) for x in cp) and eq.dominates_f(inc[0], up[0]) and \
+    okq = len(inc) == 1 and len(up) == 1 and len(cp) >= 1 and all(eq.dominates_f(x, up[0]) for x in cp) and eq.dominates_f(inc[0], up[0]) and \
         eq.always_passes(eq.entry_inst(), up)
     ctx.ob('C19.5', 'enq: element stored, count incremented, heap order restored', okq,
            'events[n] = evt; n++; heapify_up - an event that is stored but not counted, or counted but left out of order, is lost or '
            'replayed at the wrong time', loc=eq.loc)
     if cp:
         ix = [x for x in eq.ap(cp[0].args[0]).steps if x[0] in ('p', 'i')]
-        oki = bool(ix) and isinstance(ix[-1][1], str) and is_load_of(eq, ix[-1][1], 'dr_event_queue.n')
-        ctx.ob('C19.5', 'enq stores at index n', oki, 'the first free slot', loc=cp[0].loc)
+        # the slot written is the old count: new count - index == 1 (whichever of the two statements comes first)
+        oki = bool(ix) and isinstance(ix[-1][1], str) and is_load_of(eq, ix[-1][1], 'dr_event_queue.n') and bool(inc)
+        if oki:
+            dd = lib.affine_diff(eq, inc[0].ops[0], ix[-1][1])
+            if dd != {'': 1}:
+                # two loads of n: equal if nothing wrote n in between
+                la = [k for k in dd if k in eq.insts and eq.insts[k].op == 'load']
+                oki = len(la) == 2 and dd.get('', 0) == 1 and all(eq.field(eq.insts[k]) == 'dr_event_queue.n' for k in la) and \
+                    lib.same_addr(eq, eq.insts[la[0]].ops[0], eq.insts[la[1]].ops[0]) and \
+                    not any(st_ is not inc[0] for st_ in eq.stores_to('dr_event_queue.n')) and \
+                    not any((c_.callee or '') in ('dr_event_queue_ensure', 'dr_event_queue_heapify_up') and
+                            eq.dominates_f(eq.insts[la[0]], c_) != eq.dominates_f(eq.insts[la[1]], c_) for c_ in eq.calls())
+                if oki:
+                    first, second = sorted([eq.insts[k] for k in la], key=lambda i: (i.block.id, i.idx))
+                    oki = not (eq.dominates_f(inc[0], second) and eq.dominates_f(first, inc[0]))
+        ctx.ob('C19.5', 'enq stores at index n', oki, 'the first free slot: events[old n], new n = old n + 1', loc=cp[0].loc)
     dq = ctx.need_fn(c, 'dr_event_queue_deq')
     dec = counter_step(dq, -1)
     dn = call_sites(dq, 'dr_event_queue_heapify_down')
